@@ -68,7 +68,8 @@ fn run_case(c: &Value) -> Value {
     match c["api"].as_str().unwrap_or("") {
         "k_get_hours" => {
             let h = k::k_get_hours(&params(c), f(c, "lat", 0.), f(c, "lon", 0.), f(c, "elev", 0.), astros(c), weather(c));
-            json!({"hours": h})
+            let nonfinite: Vec<usize> = h.iter().enumerate().filter(|(_, x)| matches!(x, Some(v) if !v.is_finite())).map(|(i, _)| i).collect();
+            json!({"hours": h, "nonfinite": nonfinite})
         }
         "k_adj" => {
             let mut hrs = [None; 6];
@@ -80,7 +81,10 @@ fn run_case(c: &Value) -> Value {
         }
         "k_hour_to_time" => {
             let s = k::k_hour_to_time(&params(c), prayer(c["prayer"].as_str().unwrap()), f(c, "hour", 0.));
-            json!({"secs": s})
+            match s {
+                Some(x) => json!({"secs": x}),
+                None => json!({"failed": "hour_to_time produced no time"}),
+            }
         }
         "k_julian_day" => {
             let (v, d) = k::k_julian_day(date(c, "date"), f(c, "gmt", 0.), c["add"].as_i64().unwrap_or(0));
